@@ -37,6 +37,8 @@ CLASS_HOME = {
     'ArmijoGoldsteinLS': 'openmdao/solvers/linesearch/backtracking.py',
     'EQConstraintComp': 'openmdao/components/eq_constraint_comp.py',
     'Group': 'openmdao/core/group.py',
+    'CSRMatrix': 'openmdao/matrices/csr_matrix.py',
+    'CSCMatrix': 'openmdao/matrices/csc_matrix.py',
     'COOSubjac': 'openmdao/jacobians/subjac.py',
     'AllConnGraph': 'openmdao/core/conn_graph.py',
     '_TotalJacInfo': 'openmdao/core/total_jac.py',
@@ -106,7 +108,7 @@ PROPERTY_ASSUMPTIONS = {
             'assumed: _iter_get_norm returns NaN or a value >= 0; _single_iteration and _run_apply neither raise nor modify solver control state'],
 }
 GAPS = {
-    'C11': ['COOMatrix/CSCMatrix/CSRMatrix (scipy.sparse construction, lexsort index maps, np.add.at accumulation): bounded tiers only', 'DenseMatrix._build (repeated-entry decision) and the COO fallback path of DenseMatrix', 'DenseMatrix._update_dtype / complex-step dtype switches: bounded tiers only', 'SplitJacobian._apply / _get_split_subjacs (which factor and src_indices each sub-jacobian gets)', 'scipy-format sub-jacobian kernels (assumed: scipy @ and .T)'],
+    'C11': ['COOMatrix/CSCMatrix/CSRMatrix._build (scipy.sparse construction, lexsort index maps, the within-subjac-duplicates flag): bounded tiers only (CSR/CSC _update_from_submat is proved given the map)', 'DenseMatrix._build (repeated-entry decision) and the COO fallback path of DenseMatrix', 'DenseMatrix._update_dtype / complex-step dtype switches: bounded tiers only', 'SplitJacobian._apply / _get_split_subjacs (which factor and src_indices each sub-jacobian gets)', 'scipy-format sub-jacobian kernels (assumed: scipy @ and .T)'],
     'C02': ['Group._apply_linear / System recursion and scaling contexts', 'linear solvers (LAPACK/SuperLU/Krylov, LinearRHSChecker solution cache) in fwd vs rev: BOUNDED model tier only', 'scipy-format sub-jacobians (COO/CSR/CSCSubjac use scipy @ and .T: assumed)', 'assembled matrices _prod (C11)', 'DictionaryJacobian._apply for implicit components, compute_jacvec_product, matrix-free components', 'Problem-level <w, J v> = <J^T w, v>: BOUNDED model tier only (fwd totals == rev totals == analytic on generated models)'],
     'C23': ['all generator classes (value maps, designs, strata, reproducibility): bounded exhaustive tier only', 'drivers/sampling/* counterparts', 'Driver._set_design_var (assumed)', 'parallel DOE (MPI)'],
     'C05': ['Indexer class hierarchy (shaped_instance / as_array / indexed_src_shape / _check_bounds): bounded exhaustive tier against NumPy only', 'index chains through promotes (C04)', 'known finding F5a (recorded, not repaired)'],
